@@ -7,9 +7,9 @@ import (
 	"encoding/hex"
 	"encoding/json"
 	"fmt"
-	"unicode/utf8"
 	"strconv"
 	"strings"
+	"unicode/utf8"
 )
 
 type KV struct {
@@ -280,7 +280,7 @@ type Req struct {
 	// RawQuery is appended to the URI ("?"+RawQuery). It must consist of plain name=value pairs of
 	// unreserved characters joined by '&' (no escapes), so that its decoding is not in question; the
 	// library itself extracts these arguments into ARGS_GET (before the ones listed in Get).
-	RawQuery string `json:"raw_query,omitempty"`
+	RawQuery    string `json:"raw_query,omitempty"`
 	Get         []KV   `json:"get,omitempty"`
 	Post        []KV   `json:"post,omitempty"`
 	Headers     []KV   `json:"headers,omitempty"`
